@@ -90,6 +90,12 @@ func main() {
 		cmdProgWin(os.Args[2:])
 	case "longtwin":
 		cmdLongTwin(os.Args[2:])
+	case "bare1":
+		cmdBare1(os.Args[2:])
+	case "first1":
+		cmdFirst1(os.Args[2:])
+	case "firstall":
+		cmdFirstAll(os.Args[2:])
 	case "play":
 		cmdPlay(os.Args[2:])
 	case "sweep16":
